@@ -4,7 +4,8 @@ import RepeVerif.Driver.Common
 /-!
 Driver for the `offreader` correspondence family (C16).
 
-  cap <idx> <N|-> <mw 0|1>                       new connection: cap (`-` = unlimited), router middleware or not
+  cap <idx> <N|-> <mw 0|1> [<outbound capacity>]  new connection: cap (`-` = unlimited), router middleware or not
+  burst <idx> begin|end                          the arrivals in between are written in one piece (no observation)
   arrive <idx> <id> <inline|blocking> <notify 0|1> <ec>
       -> <idx> admitted <id> ; running N | <idx> resp <id> <ec> ; running N | <idx> dropped ; running N
          | <idx> none ; running N | <idx> stalled ; running N
@@ -32,6 +33,13 @@ def step (d : DSt) (ws : List String) : DSt × String :=
     if (c = "-" || c.isNat) && (mw = "0" || mw = "1") then
       ({ st := St.init (if c = "-" then none else some (natOf c)), mw := mw = "1" }, "")
     else (d, "bad-op")
+  | ["cap", _idx, c, mw, ocap] =>
+    -- the outbound queue's capacity is not part of the model: a full queue only delays the reader
+    if (c = "-" || c.isNat) && (mw = "0" || mw = "1") && ocap.isNat then
+      ({ st := St.init (if c = "-" then none else some (natOf c)), mw := mw = "1" }, "")
+    else (d, "bad-op")
+  | ["burst", _idx, "begin"] => (d, "")   -- how the arrivals reach the socket; same events
+  | ["burst", _idx, "end"] => (d, "")
   | ["arrive", idx, id, route, notify, ec] =>
     if !(id.isNat && (route = "inline" || route = "blocking") && (notify = "0" || notify = "1") && ec.isNat) then
       (d, idx ++ " bad-op")
